@@ -103,5 +103,15 @@ CLAIMS['C19'] = dict(
          'proved): format_float\'s digit-string manipulation, swept over a rounding-boundary lattice of 8000+ values. One recorded finding (C19-p).',
     note='level "other": format_float is bounded only; structure (row counts) is proved under C09/C16/C17; % rendering classes trusted',
     design_ref='DESIGN.md §5 C19')
+CLAIMS['C12'] = dict(
+    text='Proof: Pulse.__init__ (registration, owner = later object, ground flags, sign flips), Geobj.idx / Connected_Geobj.idx, both '
+         'slices of Geobj.compute_connections -- end matching (dictionary hit, first registered end within 1e-3 of the shortest segment, '
+         'otherwise a new junction; search-loop rule) and pulse creation (count = segments - 1 + grounded ends + ends joined to an earlier '
+         'junction incl. closed loops; container numbers P..P+len-1 and per-object numbers 0..len-1 in creation order; interior, junction '
+         'and ground pulses sit on the stated joints; end_segs names the junction pulse, which closes the C09 link) -- Geo_Container '
+         'compute_segments (global minimum) / compute_ground, Geobj.compute_ground (tolerance), Mininec.compute_connectivity, '
+         'Pulse_Container.add; unbounded in objects and segments. The count formula over all objects follows by the documented fold lemma.',
+    note='coordinate keys abstracted; C13 segmentation contract assumed; floats as reals (the tolerance comparison uses the same sqrt term as the code)',
+    design_ref='DESIGN.md §5 C12')
 for _p in CLAIMS:
     NOT_APPLICABLE.pop(_p, None)
